@@ -35,6 +35,8 @@ func C13(e *Env) {
 	dupGetterRule(e, "R01.7")
 	c13Getter(e)
 	c13Defaults(e)
+	c14Groups(e)
+	r.Rule("R14.8", "the declared type reaches the getter signature whole: every capture group of the type reference (pointer marker, import, name) is part of the compiled type on every path (shared with C14): a dropped * makes G() return T where *T was declared and the conversion fails at run time", 5)
 	dereferenceRule(e, "R13.7")
 	r.Rule("R13.7", "ptr.Dereference returns the pointed-to value whenever the pointer is set (an explicit must_getter: false is not mistaken for unset)", 1)
 	mergeLiteralRule(e, "mergeService", "Service")
